@@ -543,12 +543,10 @@ func c19RoundTrip(rng *rand.Rand, id string, stats *c19Stats) string {
 	roll := func(n int) int { smu.Lock(); defer smu.Unlock(); return lr.Intn(n) }
 	tags := map[string]string{}
 	var late sync.WaitGroup
-	e, err := rt.NewRTEnv(id, http2.ClientOpts{MaxResponseTime: time.Duration(15+rng.Intn(60)) * time.Millisecond, PingInterval: 3 * time.Millisecond},
-		[]wire.Setting{{ID: 3, Val: uint32(2 + rng.Intn(60))}, {ID: 4, Val: 1 << 20}})
-	if err != nil {
-		return ""
-	}
-	e.OnFrame = func(rc *rt.RTConn, f rt.Frame) {
+	copts := http2.ClientOpts{MaxResponseTime: time.Duration(15+rng.Intn(60)) * time.Millisecond, PingInterval: 3 * time.Millisecond}
+	csettings := []wire.Setting{{ID: 3, Val: uint32(2 + rng.Intn(60))}, {ID: 4, Val: 1 << 20}}
+	// set before the first dial (ConfigureClient dials at once, and that connection's reader looks at OnFrame)
+	onFrame := func(rc *rt.RTConn, f rt.Frame) {
 		key := fmt.Sprintf("%d/%d", rc.Index, f.Stream)
 		switch f.Type {
 		case wire.THeaders, wire.TContinuation:
@@ -604,6 +602,11 @@ func c19RoundTrip(rng *rand.Rand, id string, stats *c19Stats) string {
 		default:
 			rc.Raw.Close()
 		}
+	}
+	e, err := rt.NewRTEnvWith(id, copts, csettings, func(env *rt.RTEnv) { env.OnFrame = onFrame })
+	if err != nil {
+		late.Wait()
+		return ""
 	}
 	ncallers := 2 + rng.Intn(10)
 	var wg sync.WaitGroup
